@@ -8,6 +8,7 @@ import (
 	"math"
 	"os"
 	"testing"
+	"time"
 )
 
 func kfOpen(t *testing.T, mode EntryIdxMode, seg int64) (*DB, string) {
@@ -451,4 +452,151 @@ func TestKF_SparsePrefixScanNoLimitSkipsSealedSegments(t *testing.T) {
 		}
 		return nil
 	})
+}
+
+func TestKF_MergeAfterClosePanics(t *testing.T) {
+	db, dir := kfOpen(t, HintKeyValAndRAMIdxMode, 256)
+	defer os.RemoveAll(dir)
+	for i := 0; i < 8; i++ {
+		k := []byte{'k', byte('0' + i)}
+		if err := db.Update(func(tx *Tx) error { return tx.Put("b", k, []byte("0123456789012345678901234567890123456789"), Persistent) }); err != nil {
+			t.Fatal(err)
+		}
+	}
+	db.Close()
+	defer func() {
+		if r := recover(); r != nil {
+			t.Errorf("REPRODUCED: Merge on a closed database panics: %v", r)
+		}
+	}()
+	_ = db.Merge()
+}
+
+func TestKF_MergeResurrectsFailedTransaction(t *testing.T) {
+	db, dir := kfOpen(t, HintKeyValAndRAMIdxMode, 256)
+	defer os.RemoveAll(dir)
+	put := func(k, v string) error {
+		return db.Update(func(tx *Tx) error { return tx.Put("b", []byte(k), []byte(v), Persistent) })
+	}
+	if err := put("k", "GOOD-0123456789012345678901234567890123456789"); err != nil {
+		t.Fatal(err)
+	}
+	// a transaction that writes k and then fails on an oversized second entry: its record of k stays in the log
+	err := db.Update(func(tx *Tx) error {
+		if err := tx.Put("b", []byte("k"), []byte("BAD--0123456789012345678901234567890123456789"), Persistent); err != nil {
+			return err
+		}
+		return tx.Put("b", []byte("big"), make([]byte, 400), Persistent)
+	})
+	if err == nil {
+		t.Skip("the oversized transaction did not fail")
+	}
+	// restore the index by reopening (the failed commit left it pointing at the uncommitted record: known finding C12)
+	db2, err := kfReopen(t, db, dir, HintKeyValAndRAMIdxMode, 256)
+	if err != nil {
+		t.Fatal(err)
+	}
+	get := func(d *DB) string {
+		v := ""
+		_ = d.View(func(tx *Tx) error {
+			if e, err := tx.Get("b", []byte("k")); err == nil {
+				v = string(e.Value[:4])
+			}
+			return nil
+		})
+		return v
+	}
+	if get(db2) != "GOOD" {
+		t.Skipf("after reopen k = %q", get(db2))
+	}
+	for i := 0; i < 6; i++ { // more segments so that Merge has work to do
+		if err := db2.Update(func(tx *Tx) error {
+			return tx.Put("b", []byte{'f', byte('0' + i)}, []byte("0123456789012345678901234567890123456789"), Persistent)
+		}); err != nil {
+			t.Fatal(err)
+		}
+	}
+	if err := db2.Merge(); err != nil {
+		t.Skipf("Merge failed: %v", err)
+	}
+	if v := get(db2); v != "GOOD" {
+		t.Errorf("REPRODUCED: after Merge, Get(k) = %q: the record of the failed transaction was rewritten as committed", v)
+	}
+	db2.Close()
+}
+
+func TestKF_MergeLeaksWriteLockWhenNewSegmentCannotBeCreated(t *testing.T) {
+	db, dir := kfOpen(t, HintKeyValAndRAMIdxMode, 256)
+	defer os.RemoveAll(dir)
+	for i := 0; i < 8; i++ {
+		k := []byte{'k', byte('0' + i)}
+		if err := db.Update(func(tx *Tx) error { return tx.Put("b", k, []byte("0123456789012345678901234567890123456789"), Persistent) }); err != nil {
+			t.Fatal(err)
+		}
+	}
+	// the segment Merge wants to create next exists as a directory: NewDataFile fails inside reWriteData
+	if err := os.Mkdir(db.getDataPath(db.MaxFileID+1), 0755); err != nil {
+		t.Fatal(err)
+	}
+	if err := db.Merge(); err == nil {
+		t.Skip("Merge succeeded although the next segment cannot be created")
+	}
+	done := make(chan struct{})
+	go func() {
+		_ = db.View(func(tx *Tx) error { return nil })
+		close(done)
+	}()
+	select {
+	case <-done:
+	case <-time.After(2 * time.Second):
+		t.Errorf("REPRODUCED: after a Merge that failed to create its output segment, View blocks for ever: reWriteData returned with the write lock still held")
+	}
+}
+
+func TestKF_MergePanicsOnSetRecordOfFailedTransaction(t *testing.T) {
+	db, dir := kfOpen(t, HintKeyValAndRAMIdxMode, 256)
+	defer os.RemoveAll(dir)
+	for i := 0; i < 6; i++ {
+		k := []byte{'k', byte('0' + i)}
+		if err := db.Update(func(tx *Tx) error { return tx.Put("b", k, []byte("0123456789012345678901234567890123456789"), Persistent) }); err != nil {
+			t.Fatal(err)
+		}
+	}
+	// a failed transaction leaves a set record of a bucket that never gets an index
+	err := db.Update(func(tx *Tx) error {
+		if err := tx.SAdd("newset", []byte("s"), []byte("x")); err != nil {
+			return err
+		}
+		return tx.Put("b", []byte("big"), make([]byte, 400), Persistent)
+	})
+	if err == nil {
+		t.Skip("the oversized transaction did not fail")
+	}
+	defer func() {
+		if r := recover(); r != nil {
+			t.Errorf("REPRODUCED: Merge panics on the set record of a failed transaction whose bucket has no index: %v", r)
+		}
+	}()
+	_ = db.Merge()
+}
+
+func TestKF_MergeLeavesIsMergingSet(t *testing.T) {
+	db, dir := kfOpen(t, HintKeyValAndRAMIdxMode, 256)
+	defer os.RemoveAll(dir)
+	for i := 0; i < 8; i++ {
+		k := []byte{'k', byte('0' + i)}
+		if err := db.Update(func(tx *Tx) error { return tx.Put("b", k, []byte("0123456789012345678901234567890123456789"), Persistent) }); err != nil {
+			t.Fatal(err)
+		}
+	}
+	if err := db.Merge(); err != nil {
+		t.Skipf("Merge failed: %v", err)
+	}
+	before := db.BPTreeIdx["b"].ValidKeyCount
+	if err := db.Update(func(tx *Tx) error { return tx.Delete("b", []byte("k0")) }); err != nil {
+		t.Fatal(err)
+	}
+	if db.isMerging || db.BPTreeIdx["b"].ValidKeyCount != before-1 {
+		t.Errorf("REPRODUCED: after a successful Merge isMerging=%v; deleting a key changes ValidKeyCount from %d to %d (key counting stays disabled)", db.isMerging, before, db.BPTreeIdx["b"].ValidKeyCount)
+	}
 }
